@@ -27,8 +27,8 @@ func init() {
 				n = 10000
 			}
 			return fw.Meta{N: n, Level: "exploration", Chunk: 5, CaseTimeoutS: 240, MinNT: 80,
-				Rule:        "one case = one seeded program of 20..120 calls applied to two fresh databases, one through Put/Get/Delete (strings) and one through PutBytes/GetBytes/DeleteBytes, with keys and values drawn from {nil, empty, 1 byte, non-UTF-8, ordinary, 64 KiB}; per call the accept/reject decision and result of both flavours must agree and Put with an empty key or value must answer ErrEmptyKeyValue; a reference map that ignores every call that returned an error is compared with a read of all keys (through both flavours) directly after each call, before/after forced rotation+flush, and before/after clean Close+re-Open (reads must not change merely because of a flush or restart). Every 52nd case instead runs a byte-API program (with rejected calls and, in half of its sessions, one Put whose WAL write fails half way through RLIMIT_FSIZE) in a traced sub-process and recovers crash images taken after rejected calls (see C02 engine). Non-trivial: >=1 rejected call, >=1 accepted call, >=1 flush and >=1 reopen; distinct by program hash",
-				MinObs:      map[string]int64{"calls_compared": 10000, "rejected_calls": 1500, "nil_arguments": 300, "transitions_flush": 300, "transitions_reopen": 300, "reads_compared": 50000, "calls_rejected_by_failing_wal": 100, "distinct_images_recovered": 800, "rejected_calls_in_traced_sessions": 50, "puts_failed_by_a_wal_write_fault_in_traced_sessions": 2},
+				Rule:        "one case = one seeded program of 20..120 calls applied to two fresh databases, one through Put/Get/Delete (strings) and one through PutBytes/GetBytes/DeleteBytes, with keys and values drawn from {nil, empty, 1 byte, non-UTF-8, ordinary, 64 KiB}; one handle in three receives Put/Get/Delete/Close calls BEFORE its Open (all must be refused, the handle must then open and work normally); per call the accept/reject decision and result of both flavours must agree and Put with an empty key or value must answer ErrEmptyKeyValue; a reference map that ignores every call that returned an error is compared with a read of all keys (through both flavours) directly after each call, before/after forced rotation+flush, and before/after clean Close+re-Open (reads must not change merely because of a flush or restart). Every 52nd case instead runs a byte-API program (with rejected calls and, in half of its sessions, one Put whose WAL write fails half way through RLIMIT_FSIZE) in a traced sub-process and recovers crash images taken after rejected calls (see C02 engine). Non-trivial: >=1 rejected call, >=1 accepted call, >=1 flush and >=1 reopen; distinct by program hash",
+				MinObs:      map[string]int64{"calls_compared": 10000, "rejected_calls": 1500, "nil_arguments": 300, "transitions_flush": 300, "transitions_reopen": 300, "reads_compared": 50000, "calls_rejected_by_failing_wal": 100, "distinct_images_recovered": 800, "rejected_calls_in_traced_sessions": 50, "handles_called_before_open": 100, "puts_failed_by_a_wal_write_fault_in_traced_sessions": 2},
 				Assumptions: []string{"nil byte slices correspond to empty strings", "Delete/DeleteBytes with an empty key is not documented as rejected; only agreement between the flavours and absence of visible effect is required"},
 			}
 		},
@@ -119,6 +119,7 @@ func runC17(c *fw.Case) {
 	_ = os.MkdirAll(dirB, 0755)
 	opts := dbOptSet{Memstore: gen.Pick(r, uint64(1<<30), 256), Threshold: 1, MaxSize: 1 << 40, Ratio: 0.2, ReadBuf: 4096, WriteBuf: gen.Pick(r, uint64(64), 4096)}
 	var dbS, dbB *simpledb.DB
+	rejected := 0
 	var trace []string
 	note := func(f string, a ...any) {
 		trace = append(trace, fmt.Sprintf(f, a...))
@@ -127,9 +128,40 @@ func runC17(c *fw.Case) {
 		}
 	}
 	ctx := func() string { return "last calls: " + strings.Join(trace, "; ") }
+	// calls on a handle that is not open yet are refused — and, like every refused call, must leave no trace: the
+	// handle must open and work normally afterwards (one handle in three receives such calls before its Open)
+	refusedBeforeOpen := func(db *simpledb.DB, flavour string) bool {
+		if r.Intn(3) != 0 {
+			return true
+		}
+		c.Obs("handles_called_before_open", 1)
+		errs := map[string]error{"Close": nil, "Put": nil, "Get": nil, "Delete": nil}
+		for _, call := range []string{"Put", "Close", "Get", "Delete", "Close"}[r.Intn(2):] {
+			switch call {
+			case "Close":
+				errs[call] = db.Close()
+			case "Put":
+				errs[call] = db.Put("early", "value")
+			case "Get":
+				_, errs[call] = db.Get("early")
+			case "Delete":
+				errs[call] = db.Delete("early")
+			}
+			if errs[call] == nil {
+				c.Violate("api/lifecycle/call-before-open-accepted/"+call, "%s on a %s handle that was never opened returned nil\n%s", call, flavour, ctx())
+				return false
+			}
+			rejected++
+		}
+		note("refused calls before Open (%s db)", flavour)
+		return true
+	}
 	openBoth := func() bool {
 		var err error
 		dbS, err = simpledb.NewSimpleDB(dirS, opts.Options()...)
+		if err == nil && !refusedBeforeOpen(dbS, "string") {
+			return false
+		}
 		if err == nil {
 			err = dbS.Open()
 		}
@@ -138,6 +170,9 @@ func runC17(c *fw.Case) {
 			return false
 		}
 		dbB, err = simpledb.NewSimpleDB(dirB, opts.Options()...)
+		if err == nil && !refusedBeforeOpen(dbB, "byte") {
+			return false
+		}
 		if err == nil {
 			err = dbB.Open()
 		}
@@ -203,7 +238,7 @@ func runC17(c *fw.Case) {
 		return true
 	}
 	steps := 20 + r.Intn(100)
-	rejected, accepted, flushes, reopens := 0, 0, 0, 0
+	accepted, flushes, reopens := 0, 0, 0
 	for s := 0; s < steps; s++ {
 		op := r.Intn(100)
 		k := c17Draw(c, keyPool)
